@@ -39,8 +39,7 @@ Definition thr_ok (t : thr) : bool := is_pow2 (tq t) && (0 <=? tp t) && (tp t <=
 Definition pos_eqb (a b : pos) : bool := (px a =? px b) && (py a =? py b).
 Fixpoint pos_distinct (l : list pos) : bool :=
   match l with [] => true | p :: r => negb (existsb (pos_eqb p) r) && pos_distinct r end.
-Fixpoint nodupZ_b (l : list Z) : bool :=
-  match l with [] => true | x :: r => negb (existsb (Z.eqb x) r) && nodupZ_b r end.
+(* nodupZ_b and nearest_determined (the tie tests below) are defined in Spec.v: C05_*_tie_test_sufficient are about them *)
 Definition rect (ncols ns : nat) (cols : list (list Z)) : bool :=
   Nat.eqb (length cols) ncols && forallb (fun c => Nat.eqb (length c) ns) cols.
 
@@ -104,15 +103,6 @@ Definition rec_eqb (a b : trec) : bool :=
   Nat.eqb (t_best a) (t_best b) && nl_eqb (t_channels a) (t_channels b).
 Definition set_eqb (a b : trec) : bool :=
   Nat.eqb (t_best a) (t_best b) && nl_eqb (usort (t_channels a)) (usort (t_channels b)).
-
-(* is the set of the n nearest channels of b determined (no distance tie across the boundary)? *)
-Definition nearest_determined (P : list pos) (b : nat) (n : Z) : bool :=
-  let nc := length P in
-  let all := seq 0 nc in
-  let dist := chan_dist P b in
-  let k := if n =? 0 then Z.of_nat nc else Z.min n (Z.of_nat nc) in
-  (k =? Z.of_nat nc) ||
-  existsb (fun c => countb (fun a => dist a <=? dist c) all =? k) all.
 
 Definition the_thr (d : dataset) (r : request) : thr := match r_thr r with Some t => t | None => d_thr d end.
 
